@@ -540,7 +540,7 @@ impl Calendar {
 
     fn icu_year(&self, era_year: &types::EraYear) -> i32 {
         if era_year.era.is_none() && self.is_japanese() && era_year.year <= 0 {
-            1 - era_year.year
+            1i32.saturating_sub(era_year.year)
         } else {
             era_year.year
         }
